@@ -1356,4 +1356,112 @@ theorem sub3_add_cancel (hs : LawfulSqrt sq) (eig : M3 K → V3 K × M3 K) (a b 
   obtain ⟨⟨h00, h01, h02⟩, ⟨h10, h11, h12⟩, ⟨h20, h21, h22⟩⟩ := e
   congr 1 <;> congr 1 <;> linarith
 
+/-! ### 3-D `transform_by` commutes with `+` (rotation AND translation part) -/
+
+/-- matrix × vector (spec side) -/
+def mulVec3 (M : M3 K) (v : V3 K) : V3 K :=
+  ⟨M.r0.x * v.x + M.r0.y * v.y + M.r0.z * v.z, M.r1.x * v.x + M.r1.y * v.y + M.r1.z * v.z, M.r2.x * v.x + M.r2.y * v.y + M.r2.z * v.z⟩
+
+/-- second-moment tensor about the ORIGIN of a body with mass `μ`, first moment `F = μ·com` and origin tensor `O`, after the
+rigid motion `x ↦ M x + t`: `M O Mᵀ + (2 (MF·t)·1 − MF tᵀ − t (MF)ᵀ) + μ(|t|²·1 − t tᵀ)` — LINEAR in `(μ, F, O)` -/
+def movedTensor (M : M3 K) (t : V3 K) (μ : K) (F : V3 K) (O : M3 K) : M3 K :=
+  let u := mulVec3 M F
+  let d := u.x * t.x + u.y * t.y + u.z * t.z
+  madd (madd (@M3.mul K (fieldNum K sq) (@M3.mul K (fieldNum K sq) M O) (mtr M))
+    ⟨⟨2 * d - 2 * u.x * t.x, -(u.x * t.y + t.x * u.y), -(u.x * t.z + t.x * u.z)⟩,
+     ⟨-(u.y * t.x + t.y * u.x), 2 * d - 2 * u.y * t.y, -(u.y * t.z + t.y * u.z)⟩,
+     ⟨-(u.z * t.x + t.z * u.x), -(u.z * t.y + t.z * u.y), 2 * d - 2 * u.z * t.z⟩⟩) (steiner3 μ t)
+
+/-- for a unit quaternion the sandwich product nalgebra evaluates is the rotation matrix times the vector -/
+theorem rot_eq_mulVec (m : Iso3 K) (hq : UnitQ (⟨m.qi, m.qj, m.qk, m.qw⟩ : Quat K)) (v : V3 K) :
+    @Iso3.rot K (fieldNum K sq) m v = mulVec3 (@Quat.toMat K (fieldNum K sq) ⟨m.qi, m.qj, m.qk, m.qw⟩) v := by
+  simp only [Iso3.rot, Iso3.rotQ, Iso3.qv, V3.cross, V3.smul, V3.add, Quat.toMat, mulVec3, fieldNum_two, UnitQ] at hq ⊢
+  congr 1
+  · linear_combination (-v.x) * hq
+  · linear_combination (-v.y) * hq
+  · linear_combination (-v.z) * hq
+
+/-- the origin tensor of a transformed body -/
+theorem originTensor_transformBy (p : MP3 K) (m : Iso3 K) (hq : UnitQ (⟨m.qi, m.qj, m.qk, m.qw⟩ : Quat K)) :
+    originTensor sq (@MP3.transformBy K (fieldNum K sq) p m)
+      = movedTensor sq (@Quat.toMat K (fieldNum K sq) ⟨m.qi, m.qj, m.qk, m.qw⟩) m.t (massOf3 p)
+          ⟨p.com.x * massOf3 p, p.com.y * massOf3 p, p.com.z * massOf3 p⟩ (originTensor sq p) := by
+  obtain ⟨h1, -, h3, h4⟩ := transformBy3_covariant sq p m
+  unfold originTensor
+  rw [h4, h1, h3]
+  simp only [Iso3.act, rot_eq_mulVec sq m hq]
+  generalize massOf3 p = μ
+  generalize @MP3.reconstruct K (fieldNum K sq) p = I
+  rcases I with ⟨⟨a00, a01, a02⟩, ⟨a10, a11, a12⟩, ⟨a20, a21, a22⟩⟩
+  rcases m with ⟨i, j, k, w, ⟨tx, ty, tz⟩⟩
+  generalize p.com = c
+  rcases c with ⟨cx, cy, cz⟩
+  simp only [movedTensor, madd, steiner3, M3.mul, mtr, mulVec3, V3.add, Quat.toMat, fieldNum_two]
+  congr 1 <;> congr 1 <;> ring
+
+theorem movedTensor_add (M : M3 K) (t : V3 K) (μ1 μ2 : K) (F1 F2 : V3 K) (O1 O2 : M3 K) :
+    movedTensor sq M t (μ1 + μ2) ⟨F1.x + F2.x, F1.y + F2.y, F1.z + F2.z⟩ (madd O1 O2)
+      = madd (movedTensor sq M t μ1 F1 O1) (movedTensor sq M t μ2 F2 O2) := by
+  rcases M with ⟨⟨m00, m01, m02⟩, ⟨m10, m11, m12⟩, ⟨m20, m21, m22⟩⟩
+  rcases O1 with ⟨⟨a00, a01, a02⟩, ⟨a10, a11, a12⟩, ⟨a20, a21, a22⟩⟩
+  rcases O2 with ⟨⟨b00, b01, b02⟩, ⟨b10, b11, b12⟩, ⟨b20, b21, b22⟩⟩
+  simp only [movedTensor, madd, steiner3, M3.mul, mtr, mulVec3]
+  congr 1 <;> congr 1 <;> ring
+
+/-- **`transform_by` commutes with `+` in 3-D** (rotation and translation; through all three eigen-decompositions): for a
+unit rotation quaternion, `(a + b).transform_by(m)` and `a.transform_by(m) + b.transform_by(m)` have the same mass, the
+same first moment and the same second-moment tensor about the origin (after `reconstruct_inertia_matrix` + Steiner term),
+whenever the solver returns orthonormal eigen-decompositions with non-negative eigenvalues of the two matrices handed over. -/
+theorem transformBy3_add (hs : LawfulSqrt sq) (eig : M3 K → V3 K × M3 K) (a b : MP3 K) (ha : 0 ≤ a.invMass) (hb : 0 ≤ b.invMass)
+    (m : Iso3 K) (hq : UnitQ (⟨m.qi, m.qj, m.qk, m.qw⟩ : Quat K))
+    (hE : ∀ (μ : K) (c : V3 K) (I : M3 K), @MP3.addRaw K (fieldNum K sq) a b = some (μ, c, I) →
+      EigenDecomp sq I (eig I).1 (eig I).2 ∧ 0 ≤ (eig I).1.x ∧ 0 ≤ (eig I).1.y ∧ 0 ≤ (eig I).1.z)
+    (hE' : ∀ (μ : K) (c : V3 K) (I : M3 K),
+      @MP3.addRaw K (fieldNum K sq) (@MP3.transformBy K (fieldNum K sq) a m) (@MP3.transformBy K (fieldNum K sq) b m) = some (μ, c, I) →
+      EigenDecomp sq I (eig I).1 (eig I).2 ∧ 0 ≤ (eig I).1.x ∧ 0 ≤ (eig I).1.y ∧ 0 ≤ (eig I).1.z) :
+    letI := fieldNum K sq
+    let l := (MP3.add eig a b).transformBy m
+    let r := MP3.add eig (a.transformBy m) (b.transformBy m)
+    massOf3 l = massOf3 r ∧
+    l.com.x * massOf3 l = r.com.x * massOf3 r ∧ l.com.y * massOf3 l = r.com.y * massOf3 r ∧
+    l.com.z * massOf3 l = r.com.z * massOf3 r ∧ originTensor sq l = originTensor sq r := by
+  intro l r
+  obtain ⟨s1, s2, s3, s4, s5⟩ := add3_full_moments sq hs eig a b ha hb hE
+  obtain ⟨g1, g2, g3, g4, g5⟩ := add3_full_moments sq hs eig (@MP3.transformBy K (fieldNum K sq) a m)
+    (@MP3.transformBy K (fieldNum K sq) b m) ha hb hE'
+  have hl := originTensor_transformBy sq (@MP3.add K (fieldNum K sq) eig a b) m hq
+  have hat := originTensor_transformBy sq a m hq
+  have hbt := originTensor_transformBy sq b m hq
+  have ml : massOf3 l = massOf3 (@MP3.add K (fieldNum K sq) eig a b) := rfl
+  have ma : massOf3 (@MP3.transformBy K (fieldNum K sq) a m) = massOf3 a := rfl
+  have mb : massOf3 (@MP3.transformBy K (fieldNum K sq) b m) = massOf3 b := rfl
+  have cl : l.com = @Iso3.act K (fieldNum K sq) m (@MP3.add K (fieldNum K sq) eig a b).com := rfl
+  have ca : (@MP3.transformBy K (fieldNum K sq) a m).com = @Iso3.act K (fieldNum K sq) m a.com := rfl
+  have cb : (@MP3.transformBy K (fieldNum K sq) b m).com = @Iso3.act K (fieldNum K sq) m b.com := rfl
+  refine ⟨by rw [ml, s1, g1, ma, mb], ?_, ?_, ?_, ?_⟩
+  · rw [g2, ml, cl, ca, cb, ma, mb]
+    simp only [Iso3.act, rot_eq_mulVec sq m hq, mulVec3, V3.add]
+    linear_combination (@Quat.toMat K (fieldNum K sq) ⟨m.qi, m.qj, m.qk, m.qw⟩).r0.x * s2
+      + (@Quat.toMat K (fieldNum K sq) ⟨m.qi, m.qj, m.qk, m.qw⟩).r0.y * s3
+      + (@Quat.toMat K (fieldNum K sq) ⟨m.qi, m.qj, m.qk, m.qw⟩).r0.z * s4 + m.t.x * s1
+  · rw [g3, ml, cl, ca, cb, ma, mb]
+    simp only [Iso3.act, rot_eq_mulVec sq m hq, mulVec3, V3.add]
+    linear_combination (@Quat.toMat K (fieldNum K sq) ⟨m.qi, m.qj, m.qk, m.qw⟩).r1.x * s2
+      + (@Quat.toMat K (fieldNum K sq) ⟨m.qi, m.qj, m.qk, m.qw⟩).r1.y * s3
+      + (@Quat.toMat K (fieldNum K sq) ⟨m.qi, m.qj, m.qk, m.qw⟩).r1.z * s4 + m.t.y * s1
+  · rw [g4, ml, cl, ca, cb, ma, mb]
+    simp only [Iso3.act, rot_eq_mulVec sq m hq, mulVec3, V3.add]
+    linear_combination (@Quat.toMat K (fieldNum K sq) ⟨m.qi, m.qj, m.qk, m.qw⟩).r2.x * s2
+      + (@Quat.toMat K (fieldNum K sq) ⟨m.qi, m.qj, m.qk, m.qw⟩).r2.y * s3
+      + (@Quat.toMat K (fieldNum K sq) ⟨m.qi, m.qj, m.qk, m.qw⟩).r2.z * s4 + m.t.z * s1
+  · have e : originTensor sq r = madd (originTensor sq (@MP3.transformBy K (fieldNum K sq) a m))
+        (originTensor sq (@MP3.transformBy K (fieldNum K sq) b m)) := g5
+    have e0 : originTensor sq (@MP3.add K (fieldNum K sq) eig a b) = madd (originTensor sq a) (originTensor sq b) := s5
+    rw [e, hl, hat, hbt, e0, s2, s3, s4, s1, ← movedTensor_add]
+
+/-- a non-identity unit rotation (120° about the diagonal would be `(1/2,1/2,1/2,1/2)`; here an oblique half-turn) for
+`transformBy3_add` / `rot_eq_mulVec` -/
+example : UnitQ (⟨2 / 3, 1 / 3, 2 / 3, 0⟩ : Quat ℚ) ∧ UnitQ (⟨1 / 2, 1 / 2, 1 / 2, 1 / 2⟩ : Quat ℚ) := by
+  constructor <;> norm_num [UnitQ]
+
 end C13
